@@ -246,39 +246,26 @@ fn compare_for_max(current: &Option<Value>, new: &Value) -> bool {
     }
 }
 
-/// Hash key for grouping.
+/// Key for grouping: the grouped values themselves, hashed and compared by identity
+/// (hashing the cells to a `u64` conflated NULL with `false` and every value of the
+/// types it did not know with each other).
 #[derive(Debug, Clone, PartialEq, Eq, Hash)]
-struct GroupKey(Vec<u64>);
+struct GroupKey(Vec<grafeo_common::types::HashableValue>);
 
 impl GroupKey {
     fn from_row(chunk: &DataChunk, row: usize, group_by: &[usize]) -> Self {
-        let hashes: Vec<u64> = group_by
+        let parts: Vec<grafeo_common::types::HashableValue> = group_by
             .iter()
             .map(|&col| {
-                chunk
+                let value = chunk
                     .column(col)
                     .and_then(|c| c.get_value(row))
-                    .map_or(0, |v| hash_value(&v))
+                    .unwrap_or(Value::Null);
+                grafeo_common::types::HashableValue(value)
             })
             .collect();
-        Self(hashes)
+        Self(parts)
     }
-}
-
-fn hash_value(value: &Value) -> u64 {
-    use std::collections::hash_map::DefaultHasher;
-    use std::hash::{Hash, Hasher};
-
-    let mut hasher = DefaultHasher::new();
-    match value {
-        Value::Null => 0u8.hash(&mut hasher),
-        Value::Bool(b) => b.hash(&mut hasher),
-        Value::Int64(i) => i.hash(&mut hasher),
-        Value::Float64(f) => f.to_bits().hash(&mut hasher),
-        Value::String(s) => s.hash(&mut hasher),
-        _ => 0u8.hash(&mut hasher),
-    }
-    hasher.finish()
 }
 
 /// Group state with key values and accumulators.
